@@ -1721,8 +1721,10 @@ class combine_latest(Stream):
                                "``node.emit_on=tuple(node.upstreams)`` to "
                                "emit on all incoming data")
         self.last.pop(self.upstreams.index(upstream))
-        self.metadata.pop(self.upstreams.index(upstream))
-        self.missing.remove(upstream)
+        held = self.metadata.pop(self.upstreams.index(upstream))
+        if held:
+            self._release_refs(held)
+        self.missing.discard(upstream)
         super(combine_latest, self)._remove_upstream(upstream)
         if self._initial_emit_on is None:
             self.emit_on = self.upstreams
